@@ -73,6 +73,10 @@ const (
 	prime       = 16777619
 )
 
+type verr string
+
+func (e verr) Error() string { return string(e) }
+
 type pair struct {
 	A int
 	B string
@@ -113,8 +117,15 @@ func mk(v Val) any {
 		return v.V == "true"
 	case "bytes":
 		return []byte(v.V)
-	case "err":
+	case "err": // a pointer receiver: Repr dereferences it and prints the struct ({msg})
 		return errors.New(v.V)
+	case "verr": // a value receiver reached through a pointer: reprOfValue's error case
+		e := verr(v.V)
+		return &e
+	case "ppstringer": // **T with T a Stringer: reprOfValue's Stringer case
+		s := strg{v.V}
+		ps := &s
+		return &ps
 	case "nil":
 		return nil
 	case "pint": // a pointer is dereferenced
